@@ -7,3 +7,22 @@ package dhcpv6
 // GetInnerMessage walks the relay chain and modifies nothing (the default for pointer-receiver methods would allow
 // writes to the receiver).
 //@ contract (*RelayMessage).GetInnerMessage
+
+// ---------- option list decoding ----------
+// FromBytesWithParser is verified once per parser that the library passes to it (contract variants key[parser]).
+// With vendParseOption the parsed options keep references into the list's bytes (by design: OptVendorOpts passes a
+// copy), so that variant retains data; with ParseOption and parseNTPSuboption every parser copies what it keeps.
+
+//@ contract (*Options).FromBytesWithParser[vendParseOption]
+//@   retains data
+//@   modifies o, (*o)[len(*o):cap(*o)]
+
+//@ contract (*Options).FromBytesWithParser[ParseOption]
+//@   modifies o, (*o)[len(*o):cap(*o)]
+
+//@ contract (*Options).FromBytesWithParser[parseNTPSuboption]
+//@   modifies o, (*o)[len(*o):cap(*o)]
+
+//@ contract vendParseOption
+//@   retains data
+//@   ensures err == nil && result0 != nil
